@@ -237,6 +237,7 @@ theorem seq_step (ρ : Nat) (s : St) (e : Ev) (hI : Inv s) (hS : SeqInv ρ s)
   | loadMeta r => exact seq_loadMeta ρ s r hI hS hok
   | openFile r p => exact seq_openFile ρ s r p hI hS hok
   | release r => exact seq_release ρ s r hS hok
+  | warm r => exact seq_same ρ s _ hS (fun x => (rs_warm s r x).1) (fun x => (rs_warm s r x).2.1) rfl rfl
   | publish r => exact seq_publish ρ s r hS hok
   | create p b => exact seq_writer ρ s _ hS rfl rfl rfl
   | saveMeta f => exact seq_writer ρ s _ hS rfl rfl rfl
@@ -244,6 +245,8 @@ theorem seq_step (ρ : Nat) (s : St) (e : Ev) (hI : Inv s) (hS : SeqInv ρ s)
   | gcList l => exact seq_writer ρ s _ hS rfl rfl rfl
   | gcRelease => exact seq_writer ρ s _ hS rfl rfl rfl
   | gcDelete p => exact seq_writer ρ s _ hS rfl rfl rfl
+  | mLock r => exact seq_writer ρ s _ hS rfl rfl rfl
+  | mUnlock r => exact seq_writer ρ s _ hS rfl rfl rfl
 
 theorem seq_run (ρ : Nat) (s : St) (t : List Ev) (hI : Inv s) (hS : SeqInv ρ s)
     (hv : validFrom full s t = true) (hq : check (seqOk ρ) s t = true) :
